@@ -370,7 +370,15 @@ def run_job(job):
                         title="v%d_%s_%s" % (os.getpid(), job["cc"], job["preset"]), create_pptx_with_all_countries=False, scenario_option=opts,
                         countries_list=[job["cc"]], return_results=True)
         rec["ok"] = True
-        rec["returned"] = dict(world=None if out[0] is None else "obj", net_pop=fl(out[1]), net_pop_fed=fl(out[2]),
+        world_map = None
+        try:
+            if out[0] is not None and hasattr(out[0], "columns") and "needs_ratio" in out[0].columns:
+                # the map that comes back with the results: which countries carry a value, and which
+                wm = out[0][["iso_a3", "needs_ratio"]].dropna()
+                world_map = sorted([str(a), float(b)] for a, b in zip(wm["iso_a3"], wm["needs_ratio"]))
+        except BaseException:
+            world_map = "unreadable"
+        rec["returned"] = dict(world=None if out[0] is None else "obj", world_map=world_map, net_pop=fl(out[1]), net_pop_fed=fl(out[2]),
                                keys=sorted(out[3].keys()) if isinstance(out[3], dict) else None)
     except BaseException as e:  # includes SystemExit raised by sys.exit() in the model
         rec["ok"] = False
